@@ -116,6 +116,14 @@ func (g *gen) corruptText(r []byte) []byte {
 
 func (g *gen) triple(kind string) *Sub {
 	r, h, s := g.validTriple()
+	// half of the corruptions start from a valid triple that was submitted (and possibly verified and forwarded)
+	// earlier in the history, the other half from a triple the server has never seen
+	seen := false
+	if kind != "valid" && kind != "valid_dup" && len(g.valids) > 0 && g.r.Intn(2) == 0 {
+		v := g.valids[g.r.Intn(len(g.valids))]
+		r, h, s = cp(v.R), cp(v.H), cp(v.S)
+		seen = true
+	}
 	switch kind {
 	case "valid":
 	case "valid_dup":
@@ -187,6 +195,9 @@ func (g *gen) triple(kind string) *Sub {
 		rid = 0 // request ids are the client's business; 0 and repeats are legal
 	}
 	sub := &Sub{Rid: rid, R: r, H: h, S: s, Label: kind}
+	if seen && !isEmptyKindName(kind) {
+		sub.Label = kind + "@seen"
+	}
 	if kind == "valid" {
 		g.valids = append(g.valids, sub)
 	}
@@ -221,6 +232,8 @@ func (p *connPool) drop(c int) {
 		}
 	}
 }
+
+func isEmptyKindName(k string) bool { return len(k) >= 5 && k[:5] == "empty" }
 
 func isEmptyKind(s *Sub) bool { return len(s.R) == 0 || len(s.H) == 0 || len(s.S) == 0 }
 
